@@ -96,7 +96,8 @@ CLAIMED['C04'] = dict(
          'certificate is derived from the block before and after the call, the driver evaluates certOk/schedsOkB and '
          'Alias.applyCert must equal the real result net for net. Over the tables regenerated from passes.py: every '
          'constant-folding rule is sound at every width, CSE reorders arguments only of commutative ops, table consistency. '
-         'PARTIAL: constant propagation and dead-logic removal have value-level theorems and the Spec-model oracle only. '
+         'dead_logic_removal_run_eq: _remove_unlistened_nets as Dead.applyDead of a closed removal (deadOk) preserves every Output and kept wire in every run, '
+         'tied the same way. PARTIAL: constant propagation has value-level theorems and the Spec-model oracle only; calls of the dead-logic pass that remove a register net are outside the model. '
          'Whole-pass preservation (each pass and optimize, on word-level / synthesized / NAND / AIG blocks, repeated application, '
          'I/O kept, result well-formed, eliminated registers started at their settled constant) is also decided by evaluating '
          'both netlists in the Lean Spec model.',
@@ -121,7 +122,7 @@ CLAIMED['C09'] = dict(
          'output net for net up to the names of temporaries, and the decidable hypotheses of the theorems (wfB, chainOkB, '
          'isTopo of the lowered schedule) are evaluated on every tested block. Value-level theorems as before (gate rules '
          'regenerated from passes.py, concat/select/fan-out tree). PARTIAL: two_way_fanout has the tree lemma and the '
-         'Spec-model oracle only; that the lowered schedule is a dependency order is checked per block, not proved. '
+         'Spec-model oracle only. lowered_schedule_is_dependency_order / net_transform_passes_run_eq_any_order: the lowered schedule is a dependency order, so the run theorems hold under any dependency order of the lowered nets. '
          'Behaviour, sanity_check, I/O preservation and postconditions of every pass and random pass sequences are also '
          'decided on the real result in the Lean Spec model.',
     design='4 C09',
